@@ -52,14 +52,12 @@ def aligned (m : Metrics) (pre suf : Text) : Bool :=
     | _, _ => true
   | _ => true
 
-/-- All (prefix, suffix) cuts of a text at character boundaries. -/
-def cuts : Text → List (Text × Text)
-  | [] => [([], [])]
-  | c :: rest => ([], c :: rest) :: (cuts rest).map (fun (p, s) => (c :: p, s))
-
-/-- The aligned cut at byte `b`, if `b` is an aligned boundary. -/
+/-- The aligned cut at byte `b`, if `b` is an aligned boundary (`splitAtByte` is
+the plain "split a character list at a byte offset"). -/
 def cutAt (m : Metrics) (t : Text) (b : Nat) : Option (Text × Text) :=
-  (cuts t).find? (fun (pre, suf) => bytes pre == b && aligned m pre suf)
+  match splitAtByte t b with
+  | some (pre, suf) => if aligned m pre suf then some (pre, suf) else none
+  | none => none
 
 /-- Canonical position of byte `b` (none: not an aligned boundary of `t`). -/
 def canonAt (m : Metrics) (t : Text) (b : Nat) : Option Pos :=
